@@ -446,7 +446,10 @@ func allBlocked(g *gate) <-chan struct{} {
 				return
 			default:
 			}
-			if time.Since(time.Unix(0, g.lastEv.Load())) > 300*time.Millisecond {
+			// quiet for 300 ms AND every goroutine waiting in a channel operation, as the runtime sees it:
+			// on a loaded machine goroutines that are merely not scheduled are quiet too (after 5 s of
+			// silence the run is cancelled whatever the goroutines do, and Blocked says what they did)
+			if q := time.Since(time.Unix(0, g.lastEv.Load())); q > 300*time.Millisecond && (allInChanOps() || q > 5*time.Second) {
 				close(ch)
 				return
 			}
